@@ -60,6 +60,13 @@ def cases(tier, seed):
     for p in progs:
         for w in ((2, 4, 8), (0, 2, 4, 8), (8, 2, 4)):
             out.append({'fam': 'B', 'prog': p, 'w': list(w), 'tier': tier})
+    # wide layers: the refinement only depends on the per-precision channel COUNTS (and, for the reassignment, on the scores), so the
+    # lattice here is the set of count compositions in steps of `step` channels (NE16 tiles of 32 output channels are crossed)
+    for cout, step, w in ((64, 8, (2, 4, 8)), (40, 8, (2, 4, 8)), (12, 3, (2, 4, 8)), (32, 8, (0, 2, 4, 8)), (48, 12, (2, 3, 4, 8))):
+        if tier == 'quick' and cout == 48:
+            continue
+        for k in (3, 1):
+            out.append({'fam': 'B-wide', 'cout': cout, 'step': step, 'k': k, 'w': list(w), 'tier': tier})
     return out
 
 
@@ -243,5 +250,83 @@ def _run_B(case, seed):
     return res
 
 
+def _run_B_wide(case, seed):
+    from plinio.methods.mps.utils import optimize_prec_assignment
+    cout, step, k, w = case['cout'], case['step'], case['k'], case['w']
+    prog = {'cin': 3, 'size': 6, 'stages': [{'op': 'conv', 'cout': cout, 'k': k}], 'head': 'gaplin'}
+    res = {'states': 0, 'transitions': 0, 'evals': 0, 'nontrivial': [], 'outcomes': set(), 'violations': []}
+    cur = [None]
+
+    def add(kind, sig, msg):
+        res['outcomes'].add(kind)
+        res['violations'].append({'kind': kind, 'sig': sig, 'msg': f'wide conv cout={cout} k={k} w={w}: {cur[0]}: {msg}',
+                                  'case': dict({kk: v for kk, v in case.items() if kk != 'only'}, only=cur[0])})
+    only = case.get('only')
+    P = len(w)
+    for comp in _compositions(cout // step, P):
+        counts = [c * step for c in comp]
+        label = {'counts': counts}
+        if only is not None and only != label:
+            continue
+        cur[0] = label
+        nas, x = _make_B(prog, w, seed)
+        sels = [(n, m) for n, m in GM.selectors(nas) if m.alpha.dim() == 2]
+        cols = [p for p, n in enumerate(counts) for _ in range(n)]
+        with torch.no_grad():
+            for sj, (_, m) in enumerate(sels):
+                Pj, Cj = m.alpha.shape
+                if Cj == cout:
+                    # channel c selects precision cols[c]; scores are tie-free and differ per channel
+                    a = torch.zeros(Pj, Cj)
+                    for c in range(Cj):
+                        a[:, c] = _reps(Pj, cols[(c * 7) % Cj] if False else cols[c])[c % 3] + 0.001 * c
+                    m.alpha.copy_(a)
+                else:
+                    m.alpha.copy_(torch.stack([_reps(Pj, Pj - 1)[c % 3] for c in range(Cj)], dim=1))
+        res['states'] += 1
+        res['transitions'] += 1
+        res['evals'] += 1
+        try:
+            nas.eval()
+            nas.update_softmax_options(hard=True)
+            with torch.no_grad():
+                nas(x)
+                before_bits = _bits(nas)
+                before_cost = float(nas.get_cost('ne16'))
+            with contextlib.redirect_stdout(io.StringIO()):
+                nas = optimize_prec_assignment(nas, 'ne16')
+            with torch.no_grad():
+                nas.eval()
+                nas(x)
+                after_bits = _bits(nas)
+                after_cost = float(nas.get_cost('ne16'))
+            bad_cols = False
+            for _, m in [(n, m) for n, m in GM.selectors(nas) if m.alpha.dim() == 2]:
+                a = m.alpha.detach()
+                if bool(((a == 0) | (a == 1)).all()) and not torch.equal(a.sum(dim=0), torch.ones(a.shape[1])):
+                    bad_cols = True
+        except Exception as e:
+            import traceback
+            add('refinement-raises', 'refinement-raises/wide', f'{type(e).__name__}: {str(e)[:200]} {traceback.format_exc()[-300:]}')
+            continue
+        if bad_cols:
+            add('channel-not-assigned-exactly-once', 'channel-not-assigned-exactly-once/model', 'after refinement some channel has no (or several) precision')
+        demoted = [(ln, c, before_bits[ln][c], after_bits[ln][c]) for ln in before_bits for c in range(len(before_bits[ln]))
+                   if after_bits[ln][c] < before_bits[ln][c]]
+        if demoted:
+            add('channel-demoted', 'channel-demoted', f'channels with a lower bit-width than before: {demoted[:4]}')
+        if after_cost > before_cost * (1 + 1e-6) + 1e-6:
+            add('cost-raised', 'cost-raised', f"get_cost('ne16') {before_cost} -> {after_cost} "
+                                              f"(counts before { {b: sum(1 for v in before_bits[ln] if v == b) for ln in before_bits for b in w} }, "
+                                              f"after { {b: sum(1 for v in after_bits[ln] if v == b) for ln in after_bits for b in w} })")
+        res['outcomes'].add('refined' if before_bits != after_bits else 'unchanged')
+        res['nontrivial'].append(f'wide/{cout}/{k}/{w}/{counts}')
+    res['outcomes'] = sorted(res['outcomes'])
+    res['sample'] = {'wide': True, 'cout': cout, 'k': k, 'w': w, 'count_step': step}
+    return res
+
+
 def run_case(case, seed):
+    if case['fam'] == 'B-wide':
+        return _run_B_wide(case, seed)
     return _run_B(case, seed) if case['fam'] == 'B' else _run_A(case, seed)
